@@ -28,6 +28,8 @@ def seeded():
         n = open(os.path.join(d, "note.txt")).read() if os.path.exists(os.path.join(d, "note.txt")) else ""
         if "NOT a violation" in n:
             cnt["delivered change does not violate the stated property"] += 1
+        elif "left so" in n:
+            cnt["missed and recorded as a limit of the workload"] += 1
         elif "MISSED" in n:
             cnt["missed on the first run, caught after the workload was widened"] += 1
         elif "caught" in n:
